@@ -6,8 +6,9 @@ package locRIB
 // Engine E5 (bounded-exhaustive enumeration), two parts in one test binary:
 //
 //  (a) route.Path.Select on ALL ordered pairs and ALL ordered triples of the
-//      path domain D (3072 BGP paths + 2 static paths): antisymmetry,
-//      transitivity, ties only between paths with the same reference key.
+//      path domain D (6144 BGP paths + 2 static paths; quick tier: triples of
+//      the half with next hop .1): antisymmetry, transitivity, ties only
+//      between paths with the same reference key.
 //  (b) the real LocRIB: for every multiset of 3 candidates of the tie-prone
 //      sub-domain every insertion permutation, and for every multiset of 4
 //      candidates of a smaller sub-domain every history "insert the 4 in some
@@ -176,7 +177,7 @@ func (t *zvC02Throttle) ok(key string) bool {
 	return t.seen[key] <= t.max
 }
 
-func zvC02PartA(r *vh.Run, ds []zvSelPD) {
+func zvC02PartA(r *vh.Run, ds []zvSelPD, tri []int) {
 	n := len(ds)
 	ps := zvSelBuildAll(ds)
 	const panicked = 9
@@ -211,6 +212,11 @@ func zvC02PartA(r *vh.Run, ds []zvSelPD) {
 	r.Extra("domain_paths", n)
 	r.Extra("domain_reference_classes", len(keyIdx))
 	th := &zvC02Throttle{seen: map[string]int{}, max: 8}
+	inTri := make([]bool, n)
+	for _, x := range tri {
+		inTri[x] = true
+	}
+	r.Extra("triple_domain_paths", len(tri))
 	var pairsStrict, pairsTieOK, pairsDistinct, notItemised int64
 	var trPremise, trTieLink, trEval int64
 	for i := 0; i < n; i++ {
@@ -245,15 +251,19 @@ func zvC02PartA(r *vh.Run, ds []zvSelPD) {
 				}
 			}
 		}
-		// triples (i, j, k)
-		for j := 0; j < n; j++ {
+		// triples (i, j, k) over the index set tri
+		if !inTri[i] {
+			r.Eval(n)
+			continue
+		}
+		for _, j := range tri {
 			sij := mi[j]
-			trEval += int64(n)
+			trEval += int64(len(tri))
 			if sij < 0 || sij == panicked {
 				continue
 			}
 			mj := m[j]
-			for k := 0; k < n; k++ {
+			for _, k := range tri {
 				sjk := mj[k]
 				if sjk < 0 || sjk == panicked {
 					continue
@@ -691,6 +701,12 @@ func zvC02Domains(thorough bool) (d3, d4 []zvSelPD) {
 	d3 = s3.enumerate()
 	// two candidates that differ from an existing one only in the next hop (same reference class)
 	d3 = append(d3, zvSelPD{LP: 100, ASLen: 1, ID: 1, CL: -1, Peer: 1, NH: 2}, zvSelPD{LP: 100, ASLen: 1, ID: 2, Orig: 3, CL: 1, Peer: 2, NH: 2})
+	// paths from a second neighbour AS, both MED values (MED is compared across neighbour ASes)
+	for _, med := range []uint32{0, 10} {
+		for _, pe := range []uint8{1, 2} {
+			d3 = append(d3, zvSelPD{LP: 100, ASLen: 1, NAS: 1, MED: med, ID: 1, CL: -1, Peer: pe, NH: 1})
+		}
+	}
 	d3 = append(d3, zvSelStatics...)
 	d4 = append(s4.enumerate(), extra4...)
 	// one path that is not ECMP-equal to the rest, one static path
@@ -704,8 +720,8 @@ func TestVerifC02(t *testing.T) {
 	r := vh.Start(t, "C02")
 	defer r.Finish()
 	zvSelQuiet()
-	r.Rule("(a) route.Path.Select on every ordered pair and every ordered triple of D = LOCAL_PREF{100,200} x AS_PATH len{1,2} x ORIGIN{0,1} x MED{0,10} x eBGP{f,t} x BGP-ID{1,2} x ORIGINATOR_ID{absent,1,3} " +
-		"x CLUSTER_LIST{absent,empty,1,2 entries} x peer{.1,.2} x next hop{.1,.2} (3072 BGP paths) + 2 static paths: antisymmetry, transitivity, ties only inside one reference class; " +
+	r.Rule("(a) route.Path.Select on every ordered pair of D = LOCAL_PREF{100,200} x AS_PATH len{1,2} x neighbour AS{65000,65100} x ORIGIN{0,1} x MED{0,10} x eBGP{f,t} x BGP-ID{1,2} x ORIGINATOR_ID{absent,1,3} " +
+		"x CLUSTER_LIST{absent,empty,1,2 entries} x peer{.1,.2} x next hop{.1,.2} (6144 BGP paths) + 2 static paths: antisymmetry, ties only inside one reference class; transitivity on every ordered triple of D (thorough) / of the 3074 paths of D with next hop .1 (quick); " +
 		"(b) real LocRIB: every multiset of 2 and 3 candidates of the tie-prone sub-domain x every insertion order, every multiset of 4 candidates of the smaller sub-domain x every history " +
 		"(insertion order x removed element x removal point), BestPath and ECMP set compared with the canonical insertion of the same final candidates; " +
 		"evaluations = pairs + triples + LocRIB histories; non-trivial = pairs of different paths + triples of different paths whose premise a>=b>=c holds + histories whose final candidates are not all in one reference class")
@@ -743,8 +759,15 @@ func TestVerifC02(t *testing.T) {
 		return
 	}
 	full := append(zvSelFull.enumerate(), zvSelStatics...)
+	// triples: the whole domain in the thorough tier, the half with next hop .1 in the quick tier
+	var tri []int
+	for i, d := range full {
+		if r.Thorough() || d.NH == 1 {
+			tri = append(tri, i)
+		}
+	}
 	t0, c0 := time.Now(), zvSelCPU()
-	zvC02PartA(r, full)
+	zvC02PartA(r, full, tri)
 	r.Extra("part_a_max_shard_s", time.Since(t0).Seconds()) // reporting only
 	r.Extra("part_a_max_shard_cpu_s", zvSelCPU()-c0)
 	d3, d4 := zvC02Domains(r.Thorough())
